@@ -205,8 +205,22 @@ fn run_seq(sc: &Value) {
             _ => {}
         }
     }
-    let taken = inj.take();
-    let _ = std::panic::catch_unwind(std::panic::AssertUnwindSafe(move || in_lib(|| drop(taken))));
+    // every sequence ends the same way: the injector (if still alive) goes away, then every sibling is awaited once
+    // more -- the original behaviour must be back, whatever the history
+    if inj.is_some() {
+        let taken = inj.take();
+        let r = std::panic::catch_unwind(std::panic::AssertUnwindSafe(move || in_lib(|| drop(taken))));
+        crate::interpose::set_in_lib(false);
+        emit(json!({"ev":"Drop","live":crate::interpose::owned_live(),"verifier_spoke":r.is_err(),"implicit":true}));
+    }
+    for a in ["a1", "a2", "a3"] {
+        argn += 3;
+        let b0 = BODY[idx(a)].load(SeqCst);
+        let e0 = EVALS.load(SeqCst);
+        let (val, polls) = await_one(a, argn);
+        emit(json!({"ev":"Await","a":a,"thread":false,"value":val,"polls":polls,"body":BODY[idx(a)].load(SeqCst) - b0,
+            "evals":EVALS.load(SeqCst) - e0,"sibling_bodies_ran":false,"final":true}));
+    }
 }
 
 /// other shapes: one fixed script each (await original, fake, await twice, drop, await)
